@@ -68,8 +68,8 @@ register_BoxArray()
 
     class_<FixedArray<IMATH_NAMESPACE::Box<T> > > boxArray_class = FixedArray<IMATH_NAMESPACE::Box<T> >::register_("Fixed length array of IMATH_NAMESPACE::Box");
     boxArray_class
-        .add_property("min",&BoxArray_get<T,0>)
-        .add_property("max",&BoxArray_get<T,1>)
+        .add_property("min",boost::python::make_function(&BoxArray_get<T,0>,boost::python::with_custodian_and_ward_postcall<0,1>()))
+        .add_property("max",boost::python::make_function(&BoxArray_get<T,1>,boost::python::with_custodian_and_ward_postcall<0,1>()))
         .def("__setitem__", &setItemTuple<T>)
     ;
 
